@@ -132,6 +132,37 @@ std::string check_record(const T& u) {
   return "";
 }
 
+// C10: host kind implied by the host text currently in the href (0 domain/opaque/empty/none, 1 IPv4, 2 IPv6)
+template <class T>
+int host_kind_of_text(const T& u) {
+  const std::string h(u.get_hostname());
+  if (!u.has_hostname() || h.empty()) return 0;
+  if (h[0] == '[') return 2;
+  if (u.is_special()) {
+    int dots = 0; bool quad = true, digit_seen = false;
+    for (char c : h) { if (c == '.') { if (!digit_seen) quad = false; dots++; digit_seen = false; } else if (c >= '0' && c <= '9') digit_seen = true; else quad = false; }
+    if (quad && dots == 3 && digit_seen) return 1;
+  }
+  return 0;
+}
+// C10: UTS #46 VerifyDnsLength on the host text: name without the root label and its dot is 1..253 bytes, every label 1..63
+inline bool dns_length_ok(std::string name) {
+  if (name.empty()) return false;
+  if (name.back() == '.') name.pop_back();
+  if (name.size() < 1 || name.size() > 253) return false;
+  size_t start = 0;
+  while (true) { size_t d = name.find('.', start); size_t len = (d == std::string::npos ? name.size() : d) - start; if (len < 1 || len > 63) return false; if (d == std::string::npos) break; start = d + 1; }
+  return true;
+}
+template <class T>
+std::string check_host_kind(const T& u) {
+  int want = host_kind_of_text(u);
+  if ((int)u.host_type != want) return "host-kind: host_type=" + std::to_string((int)u.host_type) + " but the href's host '" + std::string(u.get_hostname()) + "' is kind " + std::to_string(want) + " href=" + std::string(u.get_href());
+  bool dv = u.has_hostname() && dns_length_ok(std::string(u.get_hostname()));
+  if (u.has_valid_domain() != dv) return "has_valid_domain: returned " + std::to_string(u.has_valid_domain()) + " for host '" + std::string(u.get_hostname()) + "' href=" + std::string(u.get_href());
+  return "";
+}
+
 // C05 byte classes
 template <class T>
 std::string check_bytes(const T& u) {
